@@ -15,10 +15,10 @@ LEAN_TARGETS = ['CGV.Props.C20']
 RULE = ('valid graph strings (C04 generator) and valid cut descriptions (C01 generator) with exactly one fault injected '
         'at every applicable position: a ring marker opened and never closed (in a branch, nested, last node, %nn), a '
         'ring bond duplicating an existing edge / the same ring bond twice, a node renamed to a name without fragment, '
-        'an annotation entry with two "=", a surplus positional value, a non-numeric charge/weight (base-graph nodes and '
-        'bracket atoms of atomistic fragments); implementation and Lean model must raise the same error class; '
+        'an annotation entry with two "=", a surplus positional value, a non-numeric charge/weight (base-graph nodes, '
+        'bracket atoms of atomistic fragments, nodes of coarse fragments); implementation and Lean model must raise the same error class; '
         'oracle: the documented exception type; non-trivial: every injected fault; distinct by (fault, position, string)')
-ASSUMPTIONS = ['coarse-fragment annotations go through the atomistic dialect (finding S3): not injected there']
+ASSUMPTIONS = ['coarse-fragment annotations go through the atomistic dialect (finding S3): a non-numeric q there is accepted']
 
 
 def inject_dangling(rng, ast):
@@ -50,11 +50,11 @@ def inject_duplicate(rng, ast):
     return a
 
 
-def expect(ctx, case, got, want, what):
+def expect(ctx, case, got, want, what, finding=None):
     if got[0] == 'ok':
-        ctx.fail(case, f'{what}: a graph was returned for {case["s"]}')
+        ctx.fail(case, f'{what}: a graph was returned for {case["s"]}', finding=finding)
     elif got[1] != want:
-        ctx.fail(case, f'{what}: raised {got[1]}, documented is {want} ({case["s"]})')
+        ctx.fail(case, f'{what}: raised {got[1]}, documented is {want} ({case["s"]})', finding=finding)
 
 
 def graph_faults(ctx):
@@ -130,13 +130,48 @@ def resolve_faults(ctx):
         expect(ctx, case, got, want, f'{kind} fault')
 
 
+def outcome(ctx, case, steps):
+    if steps is None:
+        try:
+            impl.resolver_from_string(case['s'], last_all_atom=case.get('all_atom', True))
+            return ('ok', None)
+        except Exception as err:   # noqa: BLE001
+            return ('err', lib.err_class(err))
+    last = steps[-1]
+    return ('ok', None) if last['result'] == 'ok' else ('err', last['result'])
+
+
+def coarse_fragment_faults(ctx):
+    """the same annotation faults on the nodes of a coarse fragment"""
+    rng = ctx.rng('coarse-faults')
+    for _ in range(ctx.budget(60, 1200)):
+        kind = rng.choice(['cg-two-eq', 'cg-nonnumeric-w', 'cg-nonnumeric-q', 'cg-surplus'])
+        anno = {'cg-two-eq': rng.choice(['w=1=2', 'k=a=b', 'q=1=2']), 'cg-nonnumeric-w': rng.choice(['w=abc', 'w=1x']),
+                'cg-nonnumeric-q': rng.choice(['q=a', 'q=1x', 'q=']), 'cg-surplus': '1;0.5;extra'}[kind]
+        n = rng.randint(1, 3)
+        where = rng.randrange(2)
+        nodes = ['[#X]', '[#Y]']
+        nodes[where] = '[#%s;%s]' % ('XY'[where], anno)
+        s = '{' + '[#U]' * n + '}.{#U=[$]' + ''.join(nodes) + '[$]}'
+        want = 'type' if 'nonnumeric' in kind else 'syntax'
+        case = {'kind': 'resolve-fault', 'fault': kind, 's': s, 'all_atom': False}
+        steps = suites.run_resolve_case(ctx, 'fault-' + kind, case)
+        expect(ctx, case, outcome(ctx, case, steps), want, f'{kind} fault', finding='S3' if kind == 'cg-nonnumeric-q' else None)
+
+
 def run(ctx):
     graph_faults(ctx)
     resolve_faults(ctx)
+    coarse_fragment_faults(ctx)
 
 
 def corpus_case(ctx, payload):
-    pass
+    case = payload['case']
+    if case.get('kind') == 'resolve-fault':
+        steps = suites.run_resolve_case(ctx, 'corpus', case)
+        want = 'type' if 'nonnumeric' in case['fault'] else 'syntax'
+        expect(ctx, case, outcome(ctx, case, steps), want, case['fault'] + ' fault',
+               finding='S3' if case['fault'] == 'cg-nonnumeric-q' else None)
 
 
 def replay(payload):
@@ -147,7 +182,7 @@ def replay(payload):
             read_cgsmiles(case['s'])
         else:
             with lib.quiet():
-                impl.resolver_from_string(case['s']).resolve_all()
+                impl.resolver_from_string(case['s'], last_all_atom=case.get('all_atom', True)).resolve_all()
         print('no error raised for', case['s'])
         return 1
     except Exception as err:   # noqa: BLE001
@@ -157,4 +192,10 @@ def replay(payload):
 
 
 def finding_still_fails(f):
-    return False
+    import json, os
+    path = os.path.join(lib.VERIF, f.get('witness', ''))
+    if not os.path.exists(path):
+        return None
+    with open(path) as fh:
+        payload = json.load(fh)
+    return replay(payload) == 1
